@@ -236,6 +236,21 @@ Proof.
   exact (convert_passthrough env pre a).
 Qed.
 
+(** * Defect switch F122 (repaired in /repo by f0a41c5): np.unwrap(q, period=...) used to raise
+    TypeError.  The model with the switch on reproduces the old observation, the repaired model
+    the new one and not the old one; a Quantity period / discont must be an angle. *)
+Theorem C16_unwrap_period_refuted :
+  c16_ok_q (Quirks true) (unwrap_period_case (OErr EType)) = true
+  ∧ c16_ok_q repaired (unwrap_period_case (OVal [Some {[ "degree" := q1 ]}] None)) = true
+  ∧ c16_ok_q repaired (unwrap_period_case (OErr EType)) = false.
+Proof. exact unwrap_period_switch. Qed.
+Theorem C16_unwrap_quantity_keywords :
+  let m := A1 (SQ {[ "meter" := q1 ]}) in
+  let env := [("degree", UI ∅ false); ("meter", UI {[ "[length]" := q1 ]} false)] in
+  run_registered function_registrations env "unwrap" [("p", A1 (SQ {[ "degree" := q1 ]})); ("period", m)] [] = Err EDim
+  ∧ run_registered function_registrations env "unwrap" [("p", A1 (SQ {[ "degree" := q1 ]})); ("discont", m)] [] = Err EDim.
+Proof. exact unwrap_quantity_keywords. Qed.
+
 (** * Non-vacuity *)
 (** the laws assumed by the covariance theorems have a model (logarithmic scale factors) *)
 Example C16_scale_laws_satisfiable :
